@@ -50,8 +50,68 @@ def materialise(tree, root):
             write_file(root, rel, text)
 
 
-def listing(tree):
-    """[(segments, 0) | (segments, 1, text)] for files and all directories (explicit and implied)"""
+import builtins
+import errno as _errno
+
+ERRNOS = {"EIO": _errno.EIO, "EACCES": _errno.EACCES, "ESTALE": _errno.ESTALE}
+
+
+class Faults:
+    """fault injection for the calls the YAML source makes on given files of the tree:
+    {"rel/path": ("stat", "EIO")}  - os.stat on that path raises OSError(errno)  (Path.exists() re-raises it)
+    {"rel/path": ("read", "EACCES")} - stat works, open() raises.
+    Everything else on the machine is untouched."""
+    def __init__(self, root, faults):
+        self.stat = {os.path.abspath(os.path.join(root, r)): ERRNOS[e] for r, (k, e) in (faults or {}).items() if k == "stat"}
+        self.read = {os.path.abspath(os.path.join(root, r)): ERRNOS[e] for r, (k, e) in (faults or {}).items() if k == "read"}
+        self.hits = 0
+
+    @staticmethod
+    def _path(p):
+        try:
+            return os.path.abspath(os.fspath(p))
+        except TypeError:
+            return None
+
+    def __enter__(self):
+        if not self.stat and not self.read:
+            return self
+        self._os_stat, self._open = os.stat, builtins.open
+
+        def stat(path, *a, **kw):
+            e = self.stat.get(self._path(path))
+            if e is not None:
+                self._os_stat(path, *a, **kw)          # a file that is not there is simply not there
+                self.hits += 1
+                raise OSError(e, os.strerror(e), str(path))
+            return self._os_stat(path, *a, **kw)
+
+        def open_(file, *a, **kw):
+            e = self.read.get(self._path(file)) if not isinstance(file, int) else None
+            if e is not None and os.path.isfile(file):
+                self.hits += 1
+                raise OSError(e, os.strerror(e), str(file))
+            return self._open(file, *a, **kw)
+        os.stat, builtins.open = stat, open_
+        return self
+
+    def __exit__(self, *exc):
+        if self.stat or self.read:
+            os.stat, builtins.open = self._os_stat, self._open
+        return False
+
+
+def touch(root, rel):
+    """a permission / ownership change shows in ctime: the stat version of the file changes"""
+    p = os.path.join(root, rel)
+    if os.path.exists(p):
+        _clock[0] += 7
+        os.utime(p, (_clock[0], _clock[0]))
+
+
+def listing(tree, faults=None):
+    """[(segments, 0) | (segments, 1, text) | (segments, 2) stat fails | (segments, 3) unreadable] for files and all
+    directories (explicit and implied)"""
     dirs = set()
     out = []
     for rel, text in tree.items():
@@ -62,7 +122,11 @@ def listing(tree):
             dirs.add(tuple(segs))
     for rel, text in tree.items():
         if text is not DIR:
-            out.append([rel.split("/"), 1, text])
+            f = (faults or {}).get(rel)
+            if f is None:
+                out.append([rel.split("/"), 1, text])
+            else:
+                out.append([rel.split("/"), 2 if f[0] == "stat" else 3])
     for d in sorted(dirs):
         out.append([list(d), 0])
     return out
@@ -155,7 +219,8 @@ def yaml_text(items):
     return "\n".join(lines) + "\n"
 
 
-DATA_VALUES = [1, 2, "s", [1], [2, 1], {"p": 1}, {"q": [1]}, {"p": {"r": 2}}, {1, 2}, {2, 3}, None, {}, []]
+DATA_VALUES = [1, 2, "s", [1], [2, 1], {"p": 1}, {"q": [1]}, {"p": {"r": 2}}, {1, 2}, {2, 3}, None, {}, [],
+               0, "", False, "\u00e9t\u00e9", -7, 10 ** 20, {"": None}, [None, ""]]
 DATA_KEYS = ["k", "m", "l", "d"]
 
 
